@@ -86,7 +86,8 @@ class LoopSpec:
 class Spec:
     def __init__(self, qual, params, returns="none", requires=(), ensures=(), aux=(), raises=None,
                  modifies=(), loops=None, inline=False, locals=None, pure=False, hints=(),
-                 trusted=False, fresh=(), cases=None, at=None, ghost=None, ghost_calls=None, reveal=(), bind=None, decreases=None):
+                 trusted=False, fresh=(), cases=None, at=None, ghost=None, ghost_calls=None, reveal=(), bind=None, decreases=None,
+                 region=None, let=None, abstract=None):
         self.qual = qual
         self.params = params            # ordered dict name -> kind text
         self.returns = returns
@@ -105,6 +106,9 @@ class Spec:
         self.ghost = ghost or {}        # ghost parameters (name -> kind text)
         self.ghost_calls = ghost_calls or {}   # callee short name -> {ghost param -> expression in the caller}
         self.cases = cases
+        self.region = region            # (first statement text, statement text to stop before | None): verify this slice
+        self.let = let or {}            # region inputs defined by an expression over the other inputs
+        self.abstract = abstract or {}  # function-valued input -> name of an uninterpreted function (its axioms via reg.axioms)
         self.decreases = decreases      # variant expression over the parameters (recursive functions)
         self.bind = bind or {}          # function-valued parameter -> qualified name of the function it is fixed to
 
@@ -338,6 +342,9 @@ class Executor:
             return vfloat(v)
         if isinstance(v, str):
             return strings.lit(v)
+        if isinstance(v, complex):
+            return Val(COMPLEX, [z3.RealVal(repr(v.real)) if not v.real.is_integer() else z3.RealVal(int(v.real)),
+                                 z3.RealVal(repr(v.imag)) if not v.imag.is_integer() else z3.RealVal(int(v.imag))])
         if v is None:
             return vnone()
         if isinstance(v, (list, tuple)):
